@@ -156,6 +156,16 @@ DevRedisPrefetchExpiry(c, i) ==
     /\ meta[i].exp >= TimeAt(mvAt[i])        \* (it was alive when the consumer took it: it expired in the local queue)
     /\ Deliver(c, i, chk \ {"ttl"})
 
+(* RabbitMQ broker: ack / nack / reject look the delivery tag up by MESSAGE ID in one map per broker object: a settling call of a   *)
+(* consumer that no longer holds the message (its finish() has returned it meanwhile) settles the delivery of the consumer of the   *)
+(* same broker object that has taken it since                                                                                        *)
+DevRabbitSettleById(cl, i) ==
+    /\ Dev("rabbit_settle_by_id") /\ "holder" \in chk
+    /\ cl.op \in {"ack", "nack", "reject"} /\ cl.i = i /\ holder[i] # NoC /\ holder[i] # cl.c /\ loc[i] = U("p")
+    /\ CASE cl.op = "ack" -> Ack(holder[i], i)
+         [] cl.op = "nack" -> Nack(holder[i], i)
+         [] cl.op = "reject" -> \E pl \in Cats : ReturnHeld(holder[i], i, pl)
+
 (* the Redis consumer's overdue check is not restricted to the normal category *)
 DevRedisExpireAnyCategory(c, i) ==
     /\ Dev("redis_expire_any_category")
@@ -275,6 +285,12 @@ TMove ==
           \/ /\ "holder" \notin chk /\ cl.op \in {"ack", "nack", "reject", "requeue"} /\ cl.i # i /\ holder[i] # NoC /\ loc[i] = U("p")
              /\ \E pl \in Cats : ReturnHeld(holder[i], i, pl)
              /\ UNCHANGED <<calls, taint>>
+          \* C14: a settling call of somebody who no longer holds the message never settles its present holder's delivery (clause `holder')
+          \/ /\ "holder" \notin chk /\ cl.op \in {"ack", "nack", "reject"} /\ cl.i = i /\ holder[i] # NoC /\ holder[i] # cl.c /\ loc[i] = U("p")
+             /\ CASE cl.op = "ack" -> Ack(holder[i], i)
+                  [] cl.op = "nack" -> Nack(holder[i], i)
+                  [] cl.op = "reject" -> \E pl \in Cats : ReturnHeld(holder[i], i, pl)
+             /\ UNCHANGED <<calls, taint>>
           \* C14: finish() of a consumer returns its own messages only (clause `holder')
           \/ /\ "holder" \notin chk /\ cl.op = "finish" /\ holder[i] # NoC /\ holder[i] # cl.c /\ loc[i] = U("p")
              /\ \E pl \in Cats : ReturnHeld(holder[i], i, pl)
@@ -286,6 +302,7 @@ TMove ==
           \/ /\ \/ Ev.c # 0 /\ DevRedisExpireAnyCategory(Ev.c, i)
                 \/ DevRedisDoubleTakeGhost(Ev.c, i, new)
                 \/ cl.op = "reject" /\ cl.i = i /\ DevRejectToNormal(cl.c, i)
+                \/ DevRabbitSettleById(cl, i)
                 \/ cl.op = "finish" /\ (DevFinishForeign(cl.c, i) \/ DevFinishToNormal(cl.c, i))
              /\ UNCHANGED calls /\ taint' = taint \cup {i}
           \/ /\ FreeMove(i, new, Ev.c) /\ UNCHANGED <<calls, taint>>
@@ -323,7 +340,9 @@ TEnd ==
             [] cl.op \in {"ack", "nack", "reject"} ->
                  \* (a call on a message the caller does not hold is the caller's fault; a message that a concurrent finish() of
                  \*  its consumer returned while the call was under way is back in its queue: the call had nothing left to do)
-                 /\ ((Ev.st = "ok" /\ cl.h0 /\ cl.i \notin taint /\ Held(cl.c, cl.i)) => cl.done)
+                 \*  (... or that a finish() of its consumer, still under way, is about to return: the settling call may leave it to that)
+                 /\ ((Ev.st = "ok" /\ cl.h0 /\ cl.i \notin taint /\ Held(cl.c, cl.i))
+                        => (cl.done \/ \E k2 \in DOMAIN calls : calls[k2].op = "finish" /\ calls[k2].c = cl.c /\ ~calls[k2].done))
                  /\ UNCHANGED vars /\ UNCHANGED <<calls, taint>>
             [] cl.op = "requeue" ->
                  /\ ((Ev.st = "ok" /\ cl.h0 /\ cl.i \notin taint) => cl.done)
